@@ -5,7 +5,7 @@ V = os.path.dirname(os.path.dirname(os.path.abspath(__file__)))
 kf = os.path.join(V, "known_findings.jsonl")
 cur = [json.loads(l) for l in open(kf) if l.strip()]
 cand = []
-for f in sorted(glob.glob(os.path.join(V, "known_candidates", "grp*.jsonl"))):
+for f in sorted(glob.glob(os.path.join(V, "known_candidates", "*.jsonl"))):
   cand += [json.loads(l) for l in open(f) if l.strip()]
 props = {e["property"] for e in cand}
 fixed = {(e["property"], e["sig"]) for e in cur if e["status"] == "fixed"}
